@@ -46,7 +46,7 @@ type scenario struct {
 	prepare func(w *world, pfx string) (*sdata, error)
 	run     func(w *world, pfx string, d *sdata) error // an error is expected when a fault fires
 	async   bool                                        // the operation continues after the command returned
-	model   func(pfx string, ref *refRun) string        // Gallina term of the model operation (emit.go)
+	model   func(e *emitter, ref *refRun) string         // Gallina term of the model operation (emit.go)
 }
 
 func (w *world) push(u *upd) (string, error) {
@@ -135,7 +135,7 @@ func scenarios(tier string) []scenario {
 		{name: "append",
 			prepare: func(w *world, pfx string) (*sdata, error) { return prepAB(w, pfx, 1, false) },
 			run: func(w *world, pfx string, d *sdata) error {
-				return appendMsg(d.c, mk(pfx, "A"), mk(pfx, "new"), `\Seen`)
+				return appendMsg(d.c, mk(pfx, "A"), mk(pfx, "new"), "")
 			}, model: modelAppend},
 		{name: "copy",
 			prepare: func(w *world, pfx string) (*sdata, error) {
@@ -215,14 +215,14 @@ func scenarios(tier string) []scenario {
 					if i == 1 {
 						mbs = []string{mk(pfx, "b"), mk(pfx, "a")}
 					}
-					items = append(items, mcItem{RID: fmt.Sprintf("%sn%d", pfx, i), Marker: fmt.Sprintf("%sn%d", pfx, i), Flags: []string{`\Seen`}, Mboxes: mbs})
+					items = append(items, mcItem{RID: fmt.Sprintf("%sn%d", pfx, i), Marker: fmt.Sprintf("%sn%d", pfx, i), Mboxes: mbs})
 				}
 				return w.mustPush(&upd{Kind: "MessagesCreated", Items: items})
 			}, model: modelConnCreate},
 		{name: "connupdate",
 			prepare: func(w *world, pfx string) (*sdata, error) { return prepAB(w, pfx, 2, true) },
 			run: func(w *world, pfx string, d *sdata) error {
-				return w.mustPush(&upd{Kind: "MessageUpdated", MsgRID: mk(pfx, "r1"), Marker: mk(pfx, "upd"), Flags: []string{`\Flagged`}, Mboxes: []string{mk(pfx, "b")}})
+				return w.mustPush(&upd{Kind: "MessageUpdated", MsgRID: mk(pfx, "r1"), Marker: mk(pfx, "upd"), Mboxes: []string{mk(pfx, "b")}})
 			}, model: modelConnUpdate},
 		{name: "conndelete",
 			prepare: func(w *world, pfx string) (*sdata, error) { return prepAB(w, pfx, 2, true) },
@@ -425,11 +425,11 @@ func (w *world) runScenario(si int, sc scenario) error {
 	if ref.before, _, err = viewOf(w.p, ref.pfx); err != nil {
 		return err
 	}
+	w.quiesce()
 	if ref.snapBefore, err = w.snap(); err != nil {
 		return err
 	}
 	ref.filesBefore = storeFiles(w.dir)
-	w.quiesce()
 	w.p.call(req{Op: "trace_start"})
 	w.p.call(req{Op: "arm", K: 1 << 30, Mode: "fail"})
 	if err := sc.run(w, ref.pfx, d); err != nil {
@@ -447,15 +447,15 @@ func (w *world) runScenario(si int, sc scenario) error {
 		return err
 	}
 	ref.events = tr.Events
+	if ref.snapAfter, err = w.snap(); err != nil {
+		return err
+	}
+	ref.filesAfter = storeFiles(w.dir)
 	closeAll(d)
 	var bad []string
 	if ref.after, bad, err = viewOf(w.p, ref.pfx); err != nil {
 		return err
 	}
-	if ref.snapAfter, err = w.snap(); err != nil {
-		return err
-	}
-	ref.filesAfter = storeFiles(w.dir)
 	if len(bad) > 0 {
 		res.Fail("fetch-after-clean-run | "+sc.name, strings.Join(bad, "; "), ref.after)
 	}
